@@ -193,6 +193,21 @@ def TK.sync (s : TK) (o : Owner) (snap : Snapshot) : TK :=
   | none => s
   | some (t', em) => ⟨t', applyEmit s.K em, s.log ++ [(o, em)]⟩
 
+/-! ## histories of `syncOwner` calls and what they denote (specification side) -/
+
+/-- the owner map after `syncOwner o s`: the owner's entry is replaced by `s`, or dropped when `s` has
+no addresses or a zero bitmap. -/
+def setOwner (L : Owner → Option Snapshot) (o : Owner) (s : Snapshot) : Owner → Option Snapshot :=
+  fun x => if x = o then (if s.effective then some s else none) else L x
+
+/-- run a history of `syncOwner` calls. -/
+def runSync (s : TK) (h : List (Owner × Snapshot)) : TK := h.foldl (fun s p => s.sync p.1 p.2) s
+
+/-- the owner map a history denotes: the last snapshot synced for each owner (calls with the empty owner
+key are rejected by the code and change nothing). -/
+def liveAfter (L : Owner → Option Snapshot) (h : List (Owner × Snapshot)) : Owner → Option Snapshot :=
+  h.foldl (fun L p => if p.1 = "" then L else setOwner L p.1 p.2) L
+
 /-! ## `DnsCache` answers → snapshot -/
 
 /-- one resource record of `DnsCache.Answer`, as far as `dnsAnswerIP` can tell them apart. -/
